@@ -443,7 +443,23 @@ func ext۰regexp۰Match(fr *frame, args []value) value {
 	re := (*p).(nativeRegexp).re
 	b, ok := bytesConcrete(args[1].([]value))
 	if !ok {
-		panic(abortPath{"inconclusive", "regexp match on symbolic subject (regexp is environment)"})
+		// regexp is environment: the verdict on a symbolic subject is an
+		// uninterpreted boolean REm(pattern, subject), the same for the same
+		// (pattern, subject) on one path.
+		key := re.String() + "|"
+		for _, x := range args[1].([]value) {
+			key += termOf(x).String() + ","
+		}
+		if fr.i.ps.uf == nil {
+			fr.i.ps.uf = map[string]*smt.Term{}
+		}
+		t, ok := fr.i.ps.uf[key]
+		if !ok {
+			t = smt.Var(fmt.Sprintf("uf%d_REm", len(fr.i.ps.uf)), smt.Bool)
+			fr.i.ps.uf[key] = t
+			fr.i.ps.usedUF = true
+		}
+		return boolVal(t)
 	}
 	return re.Match(b)
 }
